@@ -289,6 +289,7 @@ class MailboxWorld:
         self._streams = {}
         self.srv_time = 1000.0
         self.srv_mbox_ctr = 0
+        self.server_errors = []   # exceptions raised by the reference server while handling a command
         self.errors = []          # logged errors (twisted log.err)
         self.escaped = []         # exceptions escaping ws_* / API entry points
         self.viol = []
@@ -391,10 +392,12 @@ class MailboxWorld:
     # ---- event menu
     def _all_enabled(self):
         evs = []
+        late_down = []
         for c in self.clients:
             cn = c.conn
             if cn and cn.open and not cn.stopping and cn.down:
-                evs.append(("down", c.ci))
+                # late_down: the default schedule delivers to this client only when nothing else can happen
+                (late_down if c.ci in self.cfg.get("late_down", ()) else evs).append(("down", c.ci))
         for c in self.clients:
             cn = c.conn
             if cn and cn.open and not cn.stopping and cn.up:
@@ -420,6 +423,7 @@ class MailboxWorld:
                 evs.append(("stopfin", c.ci))
         if self.net is not None:
             evs.extend(self._net_events())
+        evs.extend(late_down)
         evs.extend(late)
         if self.reorder_left > 0:
             for c in self.clients:
@@ -683,7 +687,14 @@ class MailboxWorld:
         if h and h(self, cn, payload):
             return
         self._ghost_srv(cn, payload)
-        cn.sp.onMessage(payload, False)
+        try:
+            cn.sp.onMessage(payload, False)
+        except Exception as e:
+            # the reference server raised while handling a client command (e.g. ValueError for a nameplate it considers
+            # invalid): a real deployment logs it and the WebSocket connection is torn down
+            self.server_errors.append((cn.ci, type(e).__name__, str(e)[:120]))
+            if cn.open:
+                self._drop(self.clients[cn.ci])
 
     def _deliver(self, c, msg, record=True):
         if record and msg.get("type") == "message":
@@ -859,7 +870,7 @@ class MailboxWorld:
             netimg = (tuple(links), tuple((a.reactor.name, a.host, a.port, a.state) for a in self.net.attempts),
                       tuple(sorted((h, p, port.listening) for (h, p), port in self.net.listeners.items())), self.nlose_left)
         return (netimg, tuple(parts), tuple((a.pc, a.mailbox, a.errors) for a in self.raw), im.img(srv), self.reorder_left, self.dup_left, self.srverr_left,
-                tuple(self.errors), tuple(self.escaped),
+                tuple(self.errors), tuple(self.escaped), tuple(self.server_errors),
                 im.img(self.cfg.get("extra_state")(self)) if self.cfg.get("extra_state") else None)
 
     def key(self):
